@@ -92,7 +92,94 @@ func readUntilFn(goName, lean string, extraBinders, extraArgs string, skip []str
 	return f
 }
 
+// channel/getprompt.go, channel/sendinput.go: operations = one synchronous goroutine over the read
+// loops (ScrapliModel/ChannelOpsEv.lean: phases / writes / wfaults).
+var opState = []facts.StateVar{
+	{Key: "«read phases»", Lean: "phases", Ty: "opaque:List (List Chan.Ev)"},
+	{Key: "«write log»", Lean: "writes", Ty: "list"},
+	{Key: "«write outcomes»", Lean: "wfaults", Ty: "opaque:List (Option String)"},
+}
+
+func opWrite(arg string, argTys []string) facts.ECall {
+	return facts.ECall{ArgTys: argTys, Ret: []string{"error"}, Assigns: []string{"writes", "wfaults"}, Pre: []string{
+		"let writes := writes ++ [" + arg + "]",
+		"let %r0 : Go.Error := (Chan.popFault wfaults).1",
+		"let wfaults := (Chan.popFault wfaults).2"}}
+}
+
+// opRead: one ReadUntil* call = the translated loop `fn` on the next phase; what it leaves goes back to the queue
+func opRead(fn string, argTys []string) facts.ECall {
+	return facts.ECall{ArgTys: argTys, Ret: []string{"bytes", "error"}, Assigns: []string{"phases"}, Pre: []string{
+		"match " + fn + " with",
+		"| none => %PANIC",
+		"| some (%r0, %r1, evsLeft) => (",
+		"let phases := Chan.pushBack evsLeft (Chan.popPhase phases).2"}, Post: ")"}
+}
+
+func opFn(file, goName, lean, binders, binderArgs, doc string) *facts.FnSpec {
+	return &facts.FnSpec{Dir: "channel", Recv: "Channel", Name: goName, Lean: lean, Doc: doc,
+		Binders: "(fuel : Nat) (cfg : Chan.Cfg)" + binders, BinderArgs: "fuel cfg" + binderArgs,
+		Partial: true, State: opState,
+		Go:          &facts.GoIdiom{ResultType: "result", Fields: map[string]string{"b": "bytes", "err": "error"}},
+		IgnoreCalls: []string{"recv.l."},
+		Vals: map[string]facts.Val{
+			"r.b":     {Lean: "r_b", Ty: "bytes"},
+			"r.err":   {Lean: "r_err", Ty: "error"},
+			"errors.Is(r.err, context.DeadlineExceeded)": {Lean: "(r_err == some Chan.cancelErr)", Ty: "bool"},
+		},
+		Funcs: map[string]facts.LibFn{},
+		Steps: map[string]facts.Step{"defer cancel()": {Defer: true}},
+		ECalls: map[string]facts.ECall{
+			"recv.WriteReturn": opWrite("cfg.ret", []string{}),
+			"recv.ReadUntilPrompt": opRead("Gen.Bodies.Read.readUntilPrompt fuel cfg (Chan.popPhase phases).1", []string{"skip"}),
+		},
+	}
+}
+
 var bodyFiles = map[string]*facts.BodyFile{
+	// C01 (C05, C12): channel/getprompt.go, channel/sendinput.go
+	"BodiesOps.lean": {
+		Imports:   []string{"ScrapliModel.ChannelOpsEv", "ScrapliModel.Generated.BodiesRead"},
+		Namespace: "Scrapli.Gen.Bodies.Ops",
+		Fns: []*facts.FnSpec{
+			func() *facts.FnSpec {
+				f := opFn("", "GetPrompt", "getPrompt", " (findP : Bytes → Bytes)", " findP",
+					"`findP` = `c.PromptPattern.Find`; state: the read phases still to come, the write log, the write outcomes. "+
+						"The goroutine + result channel is the synchronous-goroutine idiom (see go/facts/gobody.go, GoIdiom: trusted).")
+				f.Funcs["recv.PromptPattern.Find"] = facts.LibFn{Args: []string{"bytes"}, Ret: []string{"bytes"}, Tmpl: "(findP %0)"}
+				f.Steps["%v0, %v1 := context.WithTimeout(context.Background(), recv.TimeoutOps)"] = facts.Step{BindTys: []string{"unit", "unit"}}
+				return f
+			}(),
+			func() *facts.FnSpec {
+				f := opFn("", "SendInputB", "sendInputB",
+					" (opErr : Go.Error) (opExact opEager opStrip : Bool) (opInterim : List (Bytes → Bool))",
+					" opErr opExact opEager opStrip opInterim",
+					"`opErr` / `opExact` … = what `NewOperation(opts...)` returned; state: the read phases still to come, the write log, "+
+						"the write outcomes. `readUntilF` holds the name of the method it was assigned. The goroutine + result channel is "+
+						"the synchronous-goroutine idiom (see go/facts/gobody.go, GoIdiom: trusted).")
+				f.SkipParams = []string{"opts"}
+				f.Captures = []string{"readUntilF"}
+				f.Vals["op.ExactMatchInput"] = facts.Val{Lean: "opExact", Ty: "bool"}
+				f.Vals["op.Eager"] = facts.Val{Lean: "opEager", Ty: "bool"}
+				f.Vals["op.StripPrompt"] = facts.Val{Lean: "opStrip", Ty: "bool"}
+				f.Vals["len(op.InterimPromptPatterns) == 0"] = facts.Val{Lean: "opInterim.isEmpty", Ty: "bool"}
+				f.Vals["op.InterimPromptPatterns"] = facts.Val{Lean: "opInterim", Ty: "olist:Bytes → Bool"}
+				f.Vals["[]*regexp.Regexp{recv.PromptPattern}"] = facts.Val{Lean: "[cfg.promptP]", Ty: "olist:Bytes → Bool"}
+				f.Vals["recv.ReadUntilFuzzy"] = facts.Val{Lean: "\"ReadUntilFuzzy\"", Ty: "opaque:String"}
+				f.Vals["recv.ReadUntilExplicit"] = facts.Val{Lean: "\"ReadUntilExplicit\"", Ty: "opaque:String"}
+				f.Funcs["recv.processOut"] = facts.LibFn{Args: []string{"bytes", "bool"}, Ret: []string{"bytes"}, Partial: true,
+					Tmpl: "(Gen.Bodies.Channel.processOut cfg.ret cfg.stripP %0 %1)"}
+				f.Steps["%v0, %v1 := context.WithTimeout(context.Background(), recv.GetTimeout(op.Timeout))"] = facts.Step{BindTys: []string{"unit", "unit"}}
+				f.ECalls["NewOperation"] = facts.ECall{ArgTys: []string{"skip"}, Ret: []string{"unit", "error"}, Assigns: []string{},
+					Pre: []string{"let %r0 := ()", "let %r1 : Go.Error := opErr"}}
+				f.ECalls["recv.Write"] = opWrite("%0", []string{"bytes", "skip"})
+				f.ECalls["readUntilF"] = opRead("(if readUntilF == \"ReadUntilExplicit\" then Gen.Bodies.Read.readUntilExplicit fuel cfg (Chan.popPhase phases).1 %1 "+
+					"else Gen.Bodies.Read.readUntilFuzzy fuel cfg (Chan.popPhase phases).1 %1)", []string{"skip", "bytes"})
+				f.ECalls["recv.ReadUntilAnyPrompt"] = opRead("Gen.Bodies.Read.readUntilAnyPrompt fuel cfg %1 (Chan.popPhase phases).1", []string{"skip", "olist:Bytes → Bool"})
+				return f
+			}(),
+		},
+	},
 	// C01 (C05, C12): channel/read.go ReadUntil*
 	"BodiesRead.lean": {
 		Imports:   []string{"ScrapliModel.ChannelEv", "ScrapliModel.Generated.BodiesChannel", "ScrapliModel.Generated.BodiesUtil"},
